@@ -153,6 +153,7 @@ fn huge_liquidity(run: &Run, thorough: bool) {
 }
 
 pub fn run(run: &Run) {
+    long_histories(run, run.thorough());
     huge_liquidity(run, run.thorough());
     unissued_liquidity_tokens(run, run.thorough());
     custom_pool_withdrawals(run, run.thorough());
